@@ -28,6 +28,10 @@ ASSUME = [
     "presence-equality of every modelled path is demanded of the implementation outside the PINNED lossy class "
     "(corpus/C10/baseline_table.json: fields the from-side reads without a presence test), value-equality and "
     "no-drop / no-alteration of present fields everywhere",
+    "edit after parse: the model's objects are values (class + fields); the implementation's objects may carry more "
+    "(cached payloads, access hooks): probed by name (state_probe) and exercised by assigning through the real setters "
+    "on objects obtained by parsing; a setter may map None / empty to the empty value of the type, anything else a "
+    "setter does beyond storing the value is reported",
     "the tie model<->code is the converter table (structure) plus differential testing (semantics); the table is "
     "obtained twice per run: transcribed from the source by the fail-closed ast translator and MEASURED on the running "
     "code by harness/translators/c10_measure.py (probes per converter / field / direction, the model's own table "
@@ -1133,6 +1137,571 @@ def payload_stage(ctx, base, cur, model, mismatch_counter):
     return len(payloads)
 
 
+
+# ------------------------------------------------------------------ edit after parse
+# (coq/C10/C10Edit.v: set_path / get_path; theorems C10_serialise_depends_on_value_only, C10_edit_then_roundtrip,
+#  C10_edit_in_domain_roundtrip).  The converter must be a function of the object's VALUE: an object obtained by
+#  parsing (protobytes_to_message / fromProtocolTreeNode) and then edited through the real property setters serialises
+#  like a freshly composed object holding the same values.
+ATTR_PKG = "yowsup.layers.protocol_messages.protocolentities.attributes"
+MEDIA_ENTITIES = {"image": "ImageDownloadableMediaMessageProtocolEntity",
+                  "audio": "AudioDownloadableMediaMessageProtocolEntity",
+                  "video": "VideoDownloadableMediaMessageProtocolEntity",
+                  "document": "DocumentDownloadableMediaMessageProtocolEntity",
+                  "sticker": "StickerDownloadableMediaMessageProtocolEntity",
+                  "location": "LocationMediaMessageProtocolEntity",
+                  "contact": "ContactMediaMessageProtocolEntity",
+                  "extendedtext": "ExtendedTextMediaMessageProtocolEntity"}
+
+
+def message_field_of(info):
+    """converter -> the MessageAttributes field that carries it"""
+    out = {}
+    for f in info.fields("message"):
+        k = info.kind("message", f)
+        if k[0] == "rec":
+            out[k[1]] = f
+    return out
+
+
+def attr_paths(info, conv, e, prefix=()):
+    """every modelled attribute path of the canonical object e: (path, owning converter, field, kind)"""
+    out = []
+    for f in info.fields(conv):
+        k = info.kind(conv, f)
+        out.append((prefix + (f,), conv, f, k))
+        x = e.get(f) if isinstance(e, dict) else None
+        if k[0] == "rec" and isinstance(x, dict) and len(prefix) < 24:
+            out += attr_paths(info, k[1], x, prefix + (f,))
+    return out
+
+
+def rec_get(e, path):
+    for f in path:
+        if not isinstance(e, dict) or f not in e:
+            return Rec({"@": "?missing"})
+        e = e[f]
+    return e
+
+
+def path_kind(info, path):
+    conv, k = "message", None
+    for f in path:
+        k = info.kind(conv, f)
+        if k[0] == "rec":
+            conv = k[1]
+    return k
+
+
+def _meta(n=0):
+    from yowsup.layers.protocol_messages.protocolentities.attributes.attributes_message_meta import \
+        MessageMetaAttributes
+    return MessageMetaAttributes(id="ED%d" % n, recipient="123@s.whatsapp.net", timestamp=1500000000 + n)
+
+
+class EditHandle(object):
+    """one live object of the implementation: a MessageAttributes (via 'bytes') or a protocol entity carrying one
+    (via 'entity:<converter>'), with the two operations of the property: serialise and parse"""
+
+    def __init__(self, info, msg_v, via):
+        self.info, self.via = info, via
+        self.c = impl()["conv"]
+        if via == "bytes":
+            self.ent, self.msg = None, build_obj(info, "message", msg_v)
+        else:
+            from yowsup.layers.protocol_messages.protocolentities.protomessage import ProtomessageProtocolEntity
+            from yowsup.layers.protocol_media import protocolentities as PE
+            conv = via.split(":", 1)[1]
+            if conv == "message":
+                self.cls = ProtomessageProtocolEntity
+                self.ent = ProtomessageProtocolEntity("text", build_obj(info, "message", msg_v), _meta())
+            else:
+                self.cls = getattr(PE, MEDIA_ENTITIES[conv])
+                fld = message_field_of(info)[conv]
+                self.ent = self.cls(build_obj(info, conv, msg_v[fld]), _meta())
+            self.msg = self.ent.message_attributes
+
+    def reparse(self):
+        """replace the live object by the one obtained by PARSING its serialisation"""
+        if self.ent is None:
+            self.msg = self.c.protobytes_to_message(self.c.message_to_protobytes(self.msg))
+        else:
+            self.ent = self.cls.fromProtocolTreeNode(self.ent.toProtocolTreeNode())
+            self.msg = self.ent.message_attributes
+
+    def serialise(self):
+        if self.ent is None:
+            return self.c.message_to_protobytes(self.msg)
+        return self.ent.toProtocolTreeNode().getChild("proto").getData()
+
+    def roundtrip(self):
+        """serialise the live object, parse, canonicalise (the live object stays)"""
+        if self.ent is None:
+            back = self.c.protobytes_to_message(self.c.message_to_protobytes(self.msg))
+        else:
+            back = self.cls.fromProtocolTreeNode(self.ent.toProtocolTreeNode()).message_attributes
+        return canon(self.info, "message", back)
+
+    def state(self):
+        return canon(self.info, "message", self.msg)
+
+    def apply(self, edit):
+        """one assignment through the real setters; -> None or the reason it was refused"""
+        path, value = edit["path"], edit["value"]
+        k = path_kind(self.info, path)
+        if isinstance(value, dict) and k and k[0] == "rec":
+            value = build_obj(self.info, k[1], value)
+        try:
+            if edit.get("setter") == "entity":
+                setattr(self.ent, path[-1].split(".")[-1], value)
+            else:
+                parts = [q for f in path for q in f.split(".")]
+                holder = self.msg
+                for q in parts[:-1]:
+                    holder = getattr(holder, q)
+                setattr(holder, parts[-1], value)
+            return None
+        except Exception as e:
+            return "%s: %s" % (type(e).__name__, str(e)[:100])
+
+    def share_context(self):
+        """make two parents hold ONE ContextInfoAttributes object (through the setters); -> True if done"""
+        holders = []
+        for (path, conv, f, k) in attr_paths(self.info, "message", self.state()):
+            if k == ("rec", "contextinfo") and len(path) == 2:
+                parts = [q for g in path for q in g.split(".")]
+                h = self.msg
+                for q in parts[:-1]:
+                    h = getattr(h, q)
+                if getattr(h, parts[-1]) is not None:
+                    holders.append((h, parts[-1]))
+        if len(holders) < 2:
+            return False
+        setattr(holders[1][0], holders[1][1], getattr(holders[0][0], holders[0][1]))
+        return True
+
+
+def setter_effect(before, after, edits, refused):
+    """the assignments must change exactly the assigned paths: each reads the assigned value (a setter may map None /
+    an empty value to the empty value of the type), every other modelled path reads what it read before"""
+    done = [tuple(ed["path"]) for ed, r in zip(edits, refused) if not r]
+    for ed, r in zip(edits, refused):
+        if r:
+            continue
+        want, got = ed["value"], rec_get(after, ed["path"])
+        if isinstance(want, dict):
+            ok = isinstance(got, dict) and got.get("@") == want.get("@")
+        else:
+            ok = norm(want) == norm(got) or (not want and not got and got is not None) or \
+                (want is None and got is None)
+        if not ok:
+            return "assigned %s = %r, the object then reads %r" % (".".join(ed["path"]), want, got)
+
+    def walk(b, a, path):
+        if any(path[:len(d)] == d for d in done):
+            return None
+        if isinstance(b, dict) and isinstance(a, dict) and b.get("@") == a.get("@"):
+            for k in b:
+                if k != "@":
+                    r = walk(b[k], a.get(k), path + (k,))
+                    if r:
+                        return r
+            return None
+        if norm(b) != norm(a) and not any(d[:len(path)] == path for d in done):
+            return "%s was not assigned but changed from %r to %r" % (".".join(path), b, a)
+        return None
+    return walk(before, after, ())
+
+
+def edit_scenario(info, msg_v, scenario, via, rounds):
+    """-> (why or None, trace): scenario in parse-edit | compose-serialise-edit | shared-edit; rounds: list of lists of
+    edits, the object is serialised + parsed after every round and must come back as it reads at that moment"""
+    trace = []
+    try:
+        h = EditHandle(info, msg_v, via)
+        if scenario == "parse-edit":
+            h.reparse()
+        elif scenario == "compose-serialise-edit":
+            h.serialise()
+        elif scenario == "shared-edit":
+            if not h.share_context():
+                return (None, trace)
+        for edits in rounds:
+            before = h.state()
+            refused = [h.apply(e) for e in edits]
+            after = h.state()
+            if scenario != "shared-edit":
+                eff = setter_effect(before, after, edits, refused)
+                if eff:
+                    trace.append({"before": before, "after": after, "got": after, "refused": refused})
+                    return ("setter: " + eff, trace)
+            indom = reviewed_domain(info, "message", after)
+            try:
+                got = h.roundtrip()
+            except Exception as e:
+                if indom:
+                    raise
+                got = Rec({"@": "?raised " + type(e).__name__})   # outside the domain nothing is demanded
+            trace.append({"before": before, "after": after, "got": got, "refused": refused})
+            if indom:
+                why = covers(after, got)
+                if why:
+                    return (why, trace)
+        return (None, trace)
+    except Exception as e:
+        return ("raised %s: %s" % (type(e).__name__, str(e)[:160]), trace)
+
+
+def entity_setters(info, conv):
+    """names of the read/write attributes (data descriptors with a setter) of the media entity class of conv that
+    forward to a modelled scalar / list field: [(attribute, field of the converter)]"""
+    import inspect
+    from yowsup.layers.protocol_media import protocolentities as PE
+    cls = getattr(PE, MEDIA_ENTITIES[conv], None)
+    out = []
+    if cls is None:
+        return out
+    for n in sorted(dir(cls)):
+        if n.startswith("_"):
+            continue
+        d = inspect.getattr_static(cls, n, None)
+        if d is None or not hasattr(type(d), "__set__") or not hasattr(type(d), "__get__"):
+            continue
+        if isinstance(d, property) and d.fset is None:
+            continue
+        fkey = n if n in info.fields(conv) else "downloadablemedia_attributes." + n
+        if fkey in info.fields(conv) and info.kind(conv, fkey)[0] in ("scalar", "list"):
+            out.append((n, fkey))
+    return out
+
+
+def choose_edits(info, g, rng, e, n_edits, only_below=None, entity=None, exactly=None):
+    """1..3 assignments on modelled paths of the canonical message e, spread over the nesting depths
+    (exactly: that one path)"""
+    cands = [c for c in attr_paths(info, "message", e) if c[3][0] in ("scalar", "list", "rec")]
+    if exactly is not None:
+        cands = [c for c in cands if c[0] == tuple(exactly)]
+    if only_below is not None:
+        cands = [c for c in cands if c[0][:len(only_below)] == tuple(only_below) and len(c[0]) > len(only_below)]
+    if not cands:
+        return []
+    by_depth = {}
+    for c in cands:
+        by_depth.setdefault(len(c[0]), []).append(c)
+    edits, used = [], set()
+    for _ in range(n_edits):
+        depth = rng.choice(sorted(by_depth))
+        (path, conv, f, k) = rng.choice(by_depth[depth])
+        if any(path[:len(u)] == u or u[:len(path)] == path for u in used):
+            continue
+        used.add(path)
+        cur = rec_get(e, path)
+        req = f in info.required(conv) or any(f in al and any(q in info.required(conv) for q in al)
+                                              for al in info.aliases(conv))
+        if k[0] == "rec":
+            if not req and cur is not None and rng.random() < 0.25:
+                new = None
+            else:
+                new = fix_aliases(info, k[1], g.obj(k[1], rng.choice([0, 0, 1]), p_set=0.4))
+        else:
+            pl = [x for x in pool(k) if norm(x) != norm(cur)] or list(pool(k))
+            new = None if (not req and cur is not None and rng.random() < 0.12) else rng.choice(pl)
+        group = [path]
+        for al in info.aliases(conv):                 # aliased attributes are edited together
+            if f in al:
+                group = [path[:-1] + (q,) for q in al]
+        for pth in group:
+            ed = {"path": list(pth), "value": new}
+            if entity and len(pth) == 2 and pth[1] in dict((b, a) for a, b in entity) and rng.random() < 0.7:
+                ed["setter"] = "entity"
+            edits.append(ed)
+    return edits
+
+
+def edit_stage(ctx, base, cur, model, cases, mismatch_counter):
+    """objects obtained by parsing (bytes and entity path), edited through the real setters at every nesting depth,
+    serialised, parsed: every edited path must read the new value, every other modelled path what it read before"""
+    rng = ctx.rng
+    g = Gen(base, rng)
+    mfield = message_field_of(base)
+    per, todo = {}, []
+    limit = 24 if ctx.tier == "quick" else 240
+    for (stream, conv, v) in cases:
+        if stream in ("malformed", "alias") or conv not in base.convs:
+            continue
+        if conv != "message" and conv not in mfield:
+            continue
+        if stream != "nested" and per.get(conv, 0) >= limit:          # quoted chains: all of them
+            continue
+        if stream == "boundary" and per.get((conv, "b"), 0) >= limit // 3:
+            continue
+        try:
+            a = canon(base, conv, build_obj(base, conv, v))
+        except Exception:
+            continue
+        if not reviewed_domain(base, conv, a):
+            continue
+        per[conv] = per.get(conv, 0) + 1
+        if stream == "boundary":
+            per[(conv, "b")] = per.get((conv, "b"), 0) + 1
+        msg_v = a if conv == "message" else g.obj("message", 0, subset=set(), fixed={mfield[conv]: a})
+        todo.append((conv, msg_v))
+    # two parents sharing one context info object
+    if "image" in mfield and "extendedtext" in mfield:
+        for _ in range(6 if ctx.tier == "quick" else 60):
+            ci = g.obj("contextinfo", 1, p_set=0.5)
+            img = fix_aliases(base, "image", g.obj("image", 0, p_set=0.4,
+                                                   fixed={"downloadablemedia_attributes.context_info": ci}))
+            ext = g.obj("extendedtext", 0, p_set=0.4, fixed={"context_info": g.obj("contextinfo", 0, p_set=0.5)})
+            todo.append(("shared", g.obj("message", 0, subset=set(),
+                                         fixed={mfield["image"]: img, mfield["extendedtext"]: ext})))
+    setters = {conv: entity_setters(base, conv) for conv in MEDIA_ENTITIES if conv in base.convs}
+    stats = {"scenarios": 0, "edits": 0, "edits_refused_by_setter": 0, "serialisations_checked": 0,
+             "by_scenario": {}, "by_depth": {}, "entity_level_setters": sum(len(x) for x in setters.values()),
+             "outside_reviewed_domain_after_edit": 0}
+    model_jobs = []
+    # systematic sweeps on one full object per converter: every modelled field assigned alone on the parsed object,
+    # every entity-level read/write attribute assigned alone on the parsed entity
+    sweeps = []
+    for conv in base.convs:
+        if conv != "message" and conv not in mfield:
+            continue
+        full = fix_aliases(base, conv, g.obj(conv, 1, subset=set(g.optional(conv))))
+        try:
+            full = canon(base, conv, build_obj(base, conv, full))
+        except Exception:
+            continue
+        msg_v = full if conv == "message" else g.obj("message", 0, subset=set(), fixed={mfield[conv]: full})
+        pre = () if conv == "message" else (mfield[conv],)
+        try:
+            e0 = canon(base, "message", build_obj(base, "message", msg_v))
+        except Exception:
+            continue
+        if not reviewed_domain(base, "message", e0):
+            continue
+        for f in base.fields(conv):
+            k = base.kind(conv, f)
+            if k[0] not in ("scalar", "list", "rec"):
+                continue
+            one = choose_edits(base, g, rng, e0, 1, only_below=None, entity=None, exactly=pre + (f,))
+            if one:
+                sweeps.append((conv, msg_v, "parse-edit", "bytes", [one], "sweep-field"))
+        for (attr, fkey) in setters.get(conv, []):
+            one = choose_edits(base, g, rng, e0, 1, exactly=pre + (fkey,))
+            if one:
+                for ed in one:
+                    if ed["path"][-1] == fkey:
+                        ed["setter"] = "entity"
+                sweeps.append((conv, msg_v, "parse-edit", "entity:" + conv, [one], "sweep-entity-setter"))
+    planned = []
+    for i, (conv, msg_v) in enumerate(todo):
+        plans = []
+        if conv == "shared":
+            plans.append(("shared-edit", "bytes", ("extended_text", "context_info")))
+        else:
+            plans.append(("parse-edit", "bytes", None))
+            if conv == "message" or conv in MEDIA_ENTITIES:
+                plans.append(("parse-edit", "entity:" + conv, None))
+            if i % 2 == 0:
+                plans.append(("compose-serialise-edit", "bytes", None))
+            if i % 3 == 0:
+                plans.append(("parse-edit", "bytes", "two-rounds"))
+        for (scenario, via, extra) in plans:
+            try:
+                e0 = canon(base, "message", build_obj(base, "message", msg_v))
+            except Exception:
+                continue
+            ent = setters.get(via.split(":")[1], []) if via.startswith("entity:") else None
+            below = extra if scenario == "shared-edit" else None
+            rounds = [choose_edits(base, g, rng, e0, rng.choice([1, 1, 2, 3]), only_below=below, entity=ent or None)]
+            if extra == "two-rounds":
+                rounds.append(choose_edits(base, g, rng, e0, rng.choice([1, 2])))
+            if not rounds[0]:
+                continue
+            # an entity-level setter edits [media field, forwarded field]
+            if ent:
+                fld = mfield[via.split(":")[1]]
+                for ed in rounds[0]:
+                    if ed.get("setter") == "entity" and not (len(ed["path"]) == 2 and ed["path"][0] == fld):
+                        ed.pop("setter")
+            planned.append((conv, msg_v, scenario, via, rounds, "two-rounds" if extra == "two-rounds" else ""))
+    for (conv, msg_v, scenario, via, rounds, extra) in sweeps + planned:
+        why, trace = edit_scenario(base, msg_v, scenario, via, rounds)
+        stats["scenarios"] += 1
+        key = scenario + ("/" + extra if extra else "") + " via " + via.split(":")[0]
+        stats["by_scenario"][key] = stats["by_scenario"].get(key, 0) + 1
+        for r, t in zip(rounds, trace):
+            stats["serialisations_checked"] += 1
+            stats["edits"] += len(r)
+            stats["edits_refused_by_setter"] += sum(1 for x in t["refused"] if x)
+            if not reviewed_domain(base, "message", t["after"]):
+                stats["outside_reviewed_domain_after_edit"] += 1
+            for ed in r:
+                d = len(ed["path"])
+                stats["by_depth"][d] = stats["by_depth"].get(d, 0) + 1
+                if ed.get("setter") == "entity":
+                    stats["entity_level_setter_edits"] = stats.get("entity_level_setter_edits", 0) + 1
+        if why:
+            # shrink: one edit alone, in one round
+            best = (rounds, why)
+            for r in rounds:
+                for ed in r:
+                    w1, _ = edit_scenario(base, msg_v, scenario, via, [[ed]])
+                    if w1:
+                        best = ([[ed]], w1)
+                        break
+                if len(best[0]) == 1 and len(best[0][0]) == 1:
+                    break
+            rounds, why = best
+            ctx.violation("oracle:edit_then_serialise",
+                          {"conv": conv, "object": jsonable(msg_v), "scenario": scenario, "via": via,
+                           "rounds": [[dict(ed, value=jsonable(ed["value"])) for ed in r] for r in rounds],
+                           "observed": why,
+                           "meaning": "the object was %s, the listed paths were assigned through the real "
+                                      "setters, the object was serialised and parsed: the parsed object must "
+                                      "cover the edited one" %
+                                      {"parse-edit": "obtained by PARSING its own serialisation",
+                                       "compose-serialise-edit": "composed and serialised once",
+                                       "shared-edit": "composed with one context info object held by two parents"
+                                       }[scenario]},
+                          key=finding_key(conv, msg_v, why))
+        elif model and trace and scenario != "shared-edit" and len(rounds) == 1 and \
+                not any(trace[0]["refused"]) and typed(base, "message", trace[0]["before"]) and \
+                typed(base, "message", trace[0]["after"]):
+            t = trace[0]
+            sx_edits = [[[f.encode() for f in ed["path"]], to_sx(rec_get(t["after"], ed["path"]))]
+                        for ed in rounds[0]]
+            model_jobs.append((conv, msg_v, scenario, via, rounds, t,
+                               [b"message", to_sx(t["before"]), sx_edits]))
+    # the model's set_path / round trip against what the implementation did
+    if model and model_jobs:
+        res = model.call_many("run_edit", [j[6] for j in model_jobs])
+        for (conv, msg_v, scenario, via, rounds, t, _), r in zip(model_jobs, res):
+            bad = None
+            if isinstance(r, tuple):
+                bad = "model raised %r" % (r,)
+            else:
+                a1 = from_sx(r[0])
+                if norm(a1) != norm(t["after"]):
+                    bad = "after the assignments the implementation's object reads differently from set_path: %s" % \
+                        (covers(a1, t["after"]) or covers(t["after"], a1) or "field sets differ")
+                elif r[2][0] == 0 and norm(from_sx(r[2][1])) != norm(t["got"]):
+                    bad = "round trip of the edited object: model %s" % (covers(from_sx(r[2][1]), t["got"]) or
+                                                                          covers(t["got"], from_sx(r[2][1])) or "differs")
+                elif r[2][0] == 1 and reviewed_domain(base, "message", t["after"]):
+                    bad = "model raises Err %d on the edited object, the implementation round-trips it" % r[2][1]
+            if bad:
+                mismatch_counter[0] += 1
+                ctx.violation("correspondence:C10.edit",
+                              {"conv": conv, "object": jsonable(msg_v), "scenario": scenario, "via": via,
+                               "rounds": [[dict(ed, value=jsonable(ed["value"])) for ed in r0] for r0 in rounds],
+                               "observed": bad}, found_input=False)
+    stats["compared_with_model_set_path"] = len(model_jobs)
+    stats["by_depth"] = {str(k): v for k, v in sorted(stats["by_depth"].items())}
+    ctx.coverage["edit_stage"] = stats
+    return stats["scenarios"]
+
+
+def state_probe(base):
+    """instance state of the attribute objects that is NOT a modelled field: an instance attribute no modelled property
+    reads, state the converter writes onto the object it returns, attribute-access hooks.  -> list of descriptions"""
+    import copy
+    found = []
+    try:
+        c = impl()["conv"]
+        g = Gen(base, __import__("random").Random(11))
+        mfield = message_field_of(base)
+
+        def collect(root):
+            seen, out, stack = set(), {}, [root]
+            while stack:
+                o = stack.pop()
+                if id(o) in seen or not type(o).__module__.startswith(ATTR_PKG):
+                    continue
+                seen.add(id(o))
+                out.setdefault(type(o).__name__, o)
+                names = list(vars(o)) if hasattr(o, "__dict__") else list(getattr(type(o), "__slots__", ()))
+                for n in names:
+                    x = getattr(o, n, None) if not hasattr(o, "__dict__") else vars(o)[n]
+                    stack.extend(x if isinstance(x, (list, tuple)) else [x])
+            return out
+        composed, parsed = {}, {}
+        for conv in base.convs:
+            if conv != "message" and conv not in mfield:
+                continue
+            v = fix_aliases(base, conv, g.obj(conv, 2, subset=set(g.optional(conv))))
+            mv = v if conv == "message" else g.obj("message", 0, subset=set(), fixed={mfield[conv]: v})
+            try:
+                obj = build_obj(base, "message", mv)
+                back = c.protobytes_to_message(c.message_to_protobytes(obj))
+            except Exception:
+                continue
+            for k, o in collect(obj).items():
+                composed.setdefault(k, o)
+            for k, o in collect(back).items():
+                parsed.setdefault(k, o)
+        sentinel = object()
+        for clsname in sorted(set(composed) | set(parsed)):
+            k, pz = composed.get(clsname), parsed.get(clsname)
+            o = k if k is not None else pz
+            for klass in type(o).__mro__[:-1]:
+                for hook in ("__setattr__", "__getattr__", "__getattribute__", "__delattr__"):
+                    if hook in vars(klass):
+                        found.append("%s.%s (attribute-access hook)" % (klass.__name__, hook))
+            props = [f[0] for f in base.tab["classes"].get(clsname, {}).get("fields", [])]
+            if not props or not hasattr(o, "__dict__"):
+                continue
+            outside = []
+            for name in list(vars(o)):
+                cp = copy.copy(o)
+                cp.__dict__[name] = sentinel
+                hit = False
+                for pr in props:
+                    try:
+                        if getattr(cp, pr) is sentinel:
+                            hit = True
+                            break
+                    except Exception:
+                        pass
+                if not hit:
+                    outside.append(name)
+            for name in outside:
+                how = "instance attribute that no modelled property reads"
+                if k is not None and pz is not None:
+                    a, b = vars(k).get(name, sentinel), vars(pz).get(name, sentinel)
+                    if (a is sentinel) != (b is sentinel) or (a is None) != (b is None):
+                        how += "; %s on a composed object, %s on the object the converter returns from parsing" % (
+                            "absent" if a is sentinel else type(a).__name__,
+                            "absent" if b is sentinel else type(b).__name__)
+                found.append("%s.%s (%s)" % (clsname, name, how))
+            if k is not None and pz is not None:
+                for name in sorted(set(vars(pz)) - set(vars(k))):
+                    if name not in outside:
+                        found.append("%s.%s (written onto the object by the parsing path only)" % (clsname, name))
+        # the protocol entities that carry a message: state only the parsing path puts on them
+        for conv in ["message"] + sorted(MEDIA_ENTITIES):
+            if conv != "message" and conv not in mfield:
+                continue
+            try:
+                v = fix_aliases(base, conv, g.obj(conv, 1, subset=set(g.optional(conv))))
+                mv = v if conv == "message" else g.obj("message", 0, subset=set(), fixed={mfield[conv]: v})
+                h = EditHandle(base, mv, "entity:" + conv)
+                before = set(vars(h.ent))
+                h.reparse()
+                for name in sorted(set(vars(h.ent)) - before):
+                    found.append("%s.%s (entity attribute written by fromProtocolTreeNode only)" % (
+                        type(h.ent).__name__, name))
+            except Exception:
+                continue
+    except Exception as e:
+        found.append("state probe failed: %s: %s" % (type(e).__name__, str(e)[:200]))
+    out = []
+    for x in found:
+        if x not in out:
+            out.append(x)
+    return out
+
+
 # ------------------------------------------------------------------ entities
 def entity_checks(ctx, info, cases):
     """ProtomessageProtocolEntity and the media entity classes: entity -> node -> entity"""
@@ -1506,6 +2075,21 @@ def run(ctx):
     mm = [0]
     n_pay = payload_stage(ctx, base, cur, model, mm)
     mismatches += mm[0]
+    # state on the attribute objects that is not a modelled field (cached payloads, access hooks): named, tie
+    # broken; the edit stage runs first so that a concrete object + edit is reported before it
+    outside = state_probe(base)
+    ctx.coverage["state_outside_modelled_fields"] = outside
+    if outside:
+        ctx.ties["state-outside-modelled-fields"] = "broken: " + "; ".join(outside)[:600]
+    mm_before = mm[0]
+    n_edit = edit_stage(ctx, base, cur, model, cases, mm)
+    mismatches += mm[0] - mm_before
+    if outside:
+        ctx.violation("state outside the modelled fields: " + "; ".join(outside)[:400],
+                      {"detail": "the attribute objects of the implementation carry state that the model's objects "
+                                 "(class + modelled fields) do not have: " + "; ".join(outside),
+                       "made_observable_by_an_edit_sequence": any(v["found_input"] for v in ctx.violations)},
+                      found_input=False)
     n_ent = entity_checks(ctx, base, cases)
     if model:
         model.close()
@@ -1523,7 +2107,7 @@ def run(ctx):
         ctx.tie_broken_without_input("theorem:" + ctx.failing_theorem(), ctx.ties.get("proof"))
     if model is None and tab is not None and not ctx.violations:
         ctx.tie_broken_without_input("model-build:C10", ctx.ties.get("model-build:C10"))
-    ctx.coverage["evaluations"] = len(cases) + len(protos) + n_pay + n_ent
+    ctx.coverage["evaluations"] = len(cases) + len(protos) + n_pay + n_edit + n_ent
     ctx.coverage["distinct_nontrivial"] = nontrivial
     ctx.coverage["case_kinds"] = kinds
     ctx.coverage["in_computed_domain"] = in_dom_count
@@ -1541,7 +2125,11 @@ def run(ctx):
              "notion (random presence / complete / complete with proto defaults present / single field default and "
              "non-default / quoted chains / non-finite floats), each classified by the extracted wf_payload, "
              "lossy_payload, gap_payload and compared path by path (pread on every modelled path, presence included) "
-             "before and after parse -> serialise -> parse; entities: Protomessage + 8 media classes. "
+             "before and after parse -> serialise -> parse; edit after parse: objects obtained by parsing (bytes and "
+             "entity path), composed-and-serialised objects and objects sharing a nested context info are assigned "
+             "1..3 modelled paths (all nesting depths, entity-level setters, sweeps over every field and every "
+             "entity-level attribute) through the real setters, serialised and parsed; "
+             "entities: Protomessage + 8 media classes. "
              "non-trivial = distinct canonical object with >= 2 fields set",
         assumptions_text=ASSUME)
 
@@ -1606,6 +2194,29 @@ def replay(ctx, data):
         return 0
     base = Info(load_baseline())
     conv = case.get("conv")
+    if "rounds" in case:
+        # edit stage: rebuild the object, obtain it as recorded (parse / compose+serialise / shared), assign through
+        # the real setters, serialise, parse
+        msg_v = unjson(case["object"])
+        rounds = [[dict(ed, value=unjson(ed["value"])) for ed in r] for r in case["rounds"]]
+        why, trace = edit_scenario(base, msg_v, case["scenario"], case["via"], rounds)
+        print("object  :", json.dumps(case["object"])[:700])
+        print("scenario:", case["scenario"], "via", case["via"])
+        for r in case["rounds"]:
+            for ed in r:
+                print("assign  : %s = %s%s" % (".".join(ed["path"]), json.dumps(ed["value"])[:200],
+                                               "   (entity-level setter)" if ed.get("setter") == "entity" else ""))
+        for t in trace:
+            for r in case["rounds"]:
+                for ed in r:
+                    print("reads   : %s  before %r | after the assignment %r | after serialise + parse %r" % (
+                        ".".join(ed["path"]), rec_get(t["before"], ed["path"]), rec_get(t["after"], ed["path"]),
+                        rec_get(t["got"], ed["path"])))
+        print("expected: the parsed object covers the edited one;", "FAILS: " + why if why else "holds")
+        if why:
+            print("VIOLATION property=C10 replay=(replayed)")
+            return 1
+        return 0
     if "payload" in case and "paths" in case:
         # payload stage: parse -> serialise -> parse on the implementation, pread on every recorded modelled path
         p = unjson(case["payload"])
